@@ -39,10 +39,8 @@ typedef struct {
   int dropped;                  /* the driver closed the connection by itself */
   int connected;
   int reads, cycles;
-  int drop_cause;               /* console only, label for the finding key: why add_console_line() was going to drop a chunk */
+  long final_live, final_end;   /* text_end - text_start and text_end when the run was harvested */
 } result_t;
-static const char *cause_names[] = { "", ":chunk-larger-than-buffer", ":room-after-compaction", ":buffer-full-of-unprocessed-lines" };
-#define cause_name_of(c) cause_names[((c) & 1) ? 1 : ((c) & 4) ? 3 : ((c) & 2) ? 2 : 0]
 
 static int MT;                  /* logical MAX_TEXT of the comm.c under test */
 static int selftest;
@@ -138,6 +136,7 @@ static void harvest (void) {
   interactive_t *ip = cur_ip ();
   if (!ip || !ip->ob || (ip->ob->flags & O_DESTRUCTED)) { R->dropped = 1; return; }
   object_t *ob = ip->ob;
+  R->final_live = (long) (ip->text_end - ip->text_start); R->final_end = (long) ip->text_end;
   for (int v = 0; v < 2; v++) {
     svalue_t *sv = &ob->variables[v];
     if (sv->type != T_ARRAY) continue;
@@ -173,18 +172,10 @@ static int emit_read (io_event_t *ev, int max) {
 static void console_push (int from_seg, int upto_seg) {
   static char tmp[CONSOLE_MAX_LINE];
   size_t off = 0;
-  interactive_t *ip0 = cur_ip ();
-  long sim_end = ip0 ? (long) ip0->text_end : 0, sim_start = ip0 ? (long) ip0->text_start : 0;
   for (int i = 0; i < from_seg; i++) off += (size_t) P->seg[i];
   for (int i = from_seg; i < upto_seg; i++) {
     int l = P->seg[i];
     if (l > CONSOLE_MAX_LINE - 1) l = CONSOLE_MAX_LINE - 1;
-    /* labelling only (decides nothing): could a bounded buffer have taken this chunk?  big: the chunk alone exceeds the buffer;
-     * full: unprocessed data + chunk exceed it; needless: it only fails to fit because executed commands were not shifted out */
-    if (l >= MT) R->drop_cause |= 1;
-    else if (l > 0 && (sim_end - sim_start) + l >= MT) R->drop_cause |= 4;
-    else if (l > 0 && sim_end + l >= MT) { R->drop_cause |= 2; sim_end = sim_end - sim_start + l; sim_start = 0; }
-    else sim_end += l;
     memcpy (tmp, P->s + off, (size_t) l); tmp[l] = 0;
     check_inv ("before console chunk", 0);
     async_queue_enqueue (g_console_queue, tmp, (size_t) l + 1);      /* exactly what console_worker does with each read() */
@@ -267,7 +258,7 @@ static void do_remove (void *a) { remove_interactive ((object_t *) a, 0); }
 
 static void run (plan_t *p, result_t *r) {
   P = p; R = r;
-  r->ulen = r->ucount = r->glen = r->gcount = r->dropped = r->connected = r->reads = r->cycles = r->drop_cause = 0;
+  r->ulen = r->ucount = r->glen = r->gcount = r->dropped = r->connected = r->reads = r->cycles = 0;
   ph = 0; C = 0;
   g_proceeding_shutdown = 0;
   MAIN_OPTION (console_mode) = p->port == PT_CONSOLE;
@@ -465,7 +456,7 @@ static char seen_keys[8][100]; static int n_seen;
 static void failm (const char *key, const char *fmt, ...) {
   char msg[420], k2[160]; va_list ap;
   va_start (ap, fmt); vsnprintf (msg, sizeof msg, fmt, ap); va_end (ap);
-  if (P->mode != M_BATCH || P->port == PT_CONSOLE) {
+  if (P->mode != M_BATCH) {
     int f = 0; for (int i = 0; i < n_seen; i++) if (!strcmp (seen_keys[i], key)) f = 1;
     if (!f && n_seen < 8) snprintf (seen_keys[n_seen++], 100, "%s", key);
     failp (key, "%s", msg);
@@ -514,8 +505,9 @@ static int lines_of (result_t *r, const unsigned char **ptr, int *len, int max) 
 static void console_verdict (int k, const unsigned char **lp, int *ll, const char *what, int n) {
   if (got.dropped) { failp ("C13:console:user-removed-by-input", "%s %d: the console user was removed", what, n); return; }
   if (k == 0 || ll[k - 1] != 2 || memcmp (lp[k - 1], "ok", 2))
-    failp ("C13:console:input-stuck-after-over-long-line", "%s %d: afterwards the operator types an empty line and then \"ok\": \"ok\" is not delivered (last delivered: %s)",
-           what, n, k ? show_log (got.u + (got.ulen > 60 ? got.ulen - 60 : 0), 0) : "nothing");
+    failp (got.final_live < MT / 2 ? "C13:console:input-stuck:buffer-never-compacted" : "C13:console:input-stuck:over-long-line-never-discarded",
+           "%s %d: afterwards the operator types an empty line and then \"ok\": \"ok\" is not delivered (last delivered: %s); the buffer holds %ld unprocessed bytes, text_end=%ld of %d",
+           what, n, k ? show_log (lp[k - 1] - 2, ll[k - 1] + 2) : "nothing", got.final_live, got.final_end, MT);
 }
 
 static void elem_long (long idx) {
@@ -543,15 +535,13 @@ static void elem_long (long idx) {
     if (got.dropped) { failm ("C13:connection-dropped-by-long-line", "line of %d bytes: the driver closed the connection instead of cutting or discarding the line", n); continue; }
     /* (iv) every delivered line but the last is a cut of the long line; the last is the short line, intact */
     if (k == 0 || ll[k - 1] != 2 || memcmp (lp[k - 1], "ok", 2)) {
-      char key[128]; snprintf (key, sizeof key, "C13:%s:short-line-after-long-line-not-delivered-intact%s", port_name[port], cause_name_of (got.drop_cause));
+      char key[128]; snprintf (key, sizeof key, "C13:%s:short-line-after-long-line-not-delivered-intact", port_name[port]);
       failm (key, "line of %d bytes then \"ok\": delivered %s", n, show_log (got.u, got.ulen));
     }
     int sum = 0;
     for (int j = 0; j < k - 1; j++) {
       sum += ll[j];
-      /* network ports discard a prefix, so a piece is a contiguous cut; the console drops whole chunks, so a piece is the line
-       * with chunks missing (the statement allows over-long lines to be cut without saying where) */
-      int okcut = port == PT_CONSOLE ? is_subseq (lp[j], ll[j], big, n) : (ll[j] == 0 || memmem (big, (size_t) n, lp[j], (size_t) ll[j]) != 0);
+      int okcut = ll[j] == 0 || memmem (big, (size_t) n, lp[j], (size_t) ll[j]) != 0;   /* a contiguous cut of the line */
       if (ll[j] > n || !okcut) {
         char key[96]; snprintf (key, sizeof key, "C13:%s:long-line-delivered-altered", port_name[port]);
         failm (key, "line of %d bytes: delivered piece of %d bytes is not a cut of it: %s", n, ll[j], show_log (got.u, got.ulen));
@@ -604,7 +594,7 @@ static void elem_lines (long idx) {
     }
     (void) o;
     if (bad >= 0 || got.ucount != k) {
-      char key[128]; snprintf (key, sizeof key, "C13:%s:short-lines-lost-in-burst%s", port_name[port], cause_name_of (got.drop_cause));
+      char key[128]; snprintf (key, sizeof key, "C13:%s:short-lines-lost-in-burst", port_name[port]);
       failm (key, "%d lines of %d characters (%d bytes, MAX_TEXT %d) in reads of %d: %d lines delivered, first wrong/missing is #%d: %s", k, m, tot, MT, chunk, got.ucount, bad, show_log (got.u, got.ulen > 200 ? 200 : got.ulen));
     }
   }
